@@ -144,7 +144,8 @@ pub fn run() -> i32 {
     for v in t.viols { r.viol(v); }
     // (C) example projects
     let frozen = format!("{}/fixtures/ie_project", crate::util::root());
-    for (label, root) in [("frozen copy", frozen.as_str()), ("live copy", "/repo/examples/indo-european")] {
+    let live = format!("{}/examples/indo-european", std::env::var("VERIF_REPO").unwrap_or_else(|_| "/repo".to_string()));
+    for (label, root) in [("frozen copy", frozen.as_str()), ("live copy", live.as_str())] {
         for (pname, proj) in [("germanic", project_groups(root)), ("indo-iranian", project_groups_ii(root))] {
             let Some((groups, words, into)) = proj else { r.machinery_errors.push(format!("example project {} not readable at {}", pname, root)); continue };
             let jobs = words.len() * (groups.len() - 1);
